@@ -13,7 +13,11 @@ Pipeline
      `vh-persist kill`: a sample of boundaries is reproduced with a real SIGKILL (strace inject=<call>:when=k, k
      counted per thread over the recorded log); the killed run's own syscall log is re-executed by the same
      re-executor and compared with the directory the dead process left - a disagreement is exit 2.
-  4. Trace_Persist (TLC) judges every recovery against old / new = Effect(update, old) and checks the protocol shape.
+     Continuation: from every crash point the recorded calls that follow are re-executed on the crashed directory
+     up to and through the next update of the same store (second crash at each of its calls, or completion) and
+     loaded with the real constructors again (leftover temp files, hard links, stale tails are met by real code paths).
+  4. Trace_Persist (TLC) judges every recovery against old / new = Effect(update, old); a call sequence that is not
+     the proven protocol shape but survives everything is reported as an informational SHAPE note.
 Needs ptrace: without it the check is inconclusive (exit 2).
 """
 import json
@@ -112,8 +116,36 @@ def _pipeline(ctx, pv, pd, sp, nkills, dense=False):
         if 2 * sum(1 for k in kills if k.get("on_target")) < len(kills):
             raise Fatal("real kills do not land on the addressed system calls (%d of %d on target)"
                         % (sum(1 for k in kills if k.get("on_target")), len(kills)))
-    viol, drift = ctx.validate("Trace_Persist", "Trace_Persist.cfg", lp, timeout=1800)
+    viol, drift = _validate(ctx, lp)
     return summ, kills, viol, drift, lp
+
+
+def _validate(ctx, lp):
+    """ctx.validate, keeping the informational SHAPE lines as well."""
+    import shutil
+    dst = os.path.join(ctx.specdir, "log.ndjson")
+    shutil.copyfile(lp, dst)
+    nlines = sum(1 for _ in open(dst))
+    if nlines == 0:
+        raise Fatal("empty event log %s" % lp)
+    r = vlib.tlc(ctx, "Trace_Persist", cfg="Trace_Persist.cfg", workers=1, timeout=1800)
+    viol = vlib.printed_json(r, "VIOL")
+    drift = vlib.printed_json(r, "DRIFT")
+    if not r.ok:
+        raise Fatal("trace validation did not complete for Trace_Persist (rc=%s, %d lines):\n%s" % (r.rc, nlines, r.out[-6000:]))
+    shapes = {}
+    for rec in vlib.printed_json(r, "SHAPE"):
+        k = (rec.get("detail") or {}).get("kind", "?")
+        shapes[k] = shapes.get(k, 0) + 1
+    if shapes:
+        ctx.notes["updates_with_a_protocol_shape_not_proven_in_MC_Persist"] = shapes
+        log("SHAPE (informational): %s" % shapes)
+    ctx.notes.setdefault("trace_validation", []).append(
+        {"module": "Trace_Persist", "events": nlines, "states": r.distinct, "wall_s": round(r.wall, 1)})
+    ctx.cov["states"] += r.distinct
+    ctx.cov["transitions"] += r.generated
+    log("TRACE Trace_Persist: %d events, %d VIOL, %d DRIFT, %.1fs" % (nlines, len(viol), len(drift), r.wall))
+    return viol, drift
 
 
 def _report(ctx, scripts, viol, drift):
@@ -151,6 +183,7 @@ def run(ctx, prop):
     # 2. scripts
     rnd = random.Random(ctx.seed * 104729 + 5)
     n_tlc, n_rand, rand_len, nkills = (5, 3, 12, 8) if quick else (60, 40, 20, 150)
+    n_shrink = 1 if quick else 8
     _, items = ctx.generate("MC_Persist", "Gen_Persist.cfg", "gen.ndjson", simulate=max(2 * n_tlc, 12), depth=120, timeout=600)
     sym = _one_per_walk(items, rnd, n_tlc)
     if len(sym) < n_tlc:
@@ -160,14 +193,14 @@ def run(ctx, prop):
         for s in sym:
             f.write(json.dumps(s) + "\n")
     sp = ctx.path("scripts.ndjson")
-    ctx.harness(["plan", "-tlc", symp, "-rand", str(n_rand), "-len", str(rand_len), "-out", sp], binpath=pv, timeout=120)
+    ctx.harness(["plan", "-tlc", symp, "-rand", str(n_rand), "-len", str(rand_len), "-shrink", str(n_shrink), "-out", sp], binpath=pv, timeout=120)
     scripts = [json.loads(l) for l in open(sp) if l.strip()]
     nupd = sum(len(s["updates"]) for s in scripts)
     ctx.sample({"script_from": scripts[0]["src"], "updates": [u["kind"] for u in scripts[0]["updates"]]})
     # 3 + 4
     summ, kills, viol, drift, lp = _pipeline(ctx, pv, pd, sp, nkills, dense=not quick)
     ctx.cov["traces_validated_against_impl"] += nupd
-    ctx.notes["scripts"] = {"tlc": len(sym), "random": n_rand, "updates": nupd}
+    ctx.notes["scripts"] = {"tlc": len(sym), "random": n_rand, "grow_then_shrink": n_shrink, "updates": nupd}
     ctx.notes["materialisation"] = summ
     ctx.notes["real_kills"] = {"performed": len(kills), "agree_with_reexecution": sum(1 for k in kills if k.get("match")),
                                "on_addressed_call": sum(1 for k in kills if k.get("on_target"))}
@@ -191,6 +224,7 @@ def run(ctx, prop):
         "process kill (SIGKILL), not power failure: written bytes survive, fsync ordering is not examined",
         "one update at a time (each store serialises its updates with a mutex; the driver issues them sequentially)",
         "crash points: the entry of every system call on the config directory and prefixes {0,1,half,len-1} of every write",
+        "continuation after a crash re-executes the RECORDED calls of the following updates on the crashed directory (the stores' protocols depend on the content only through the bytes written); a history in which a recorded call could not have had its recorded outcome is abandoned",
         "updates are those the request handlers can issue (no posting into a missing category, never deleting the last account)",
         "projections compared: board text; news categories (path, type) and articles (path, id, title, poster, date, parent, data); accounts login->(name, access, password hash); ban list ip->expiry (probed for every address of the script and its prefixes)",
         "a recovery that leaves an account file named differently from the login inside it (crash between the rename and the rewrite of an account rename) counts as the complete old value; its aftermath is outside the property",
